@@ -1,6 +1,8 @@
 (* C07 -- Documented conversion priorities: name affinity decides between equal candidates. *)
 From ArgMapper Require Import Base Types Args Resolver ResolverSpec Monitors Monitors2 ResolverStatements ResolverStatements2.
 From ArgMapper.proofs Require Import C07Affinity.
+From ArgMapper Require Import ResolverStatements5.
+From ArgMapper.proofs Require Import C07F3.
 
 (* Family F1, for ANY number k of competing named inputs of type T, any
    names, any two distinct concrete types T and U, any form of the type-only
@@ -18,6 +20,18 @@ Theorem C07_f2 : C07_f2_statement.
 Proof. exact C07_f2_proof. Qed.
 Print Assumptions C07_f2.
 
+(* Family F3: SEVERAL named parameters (n_1, U) .. (n_m, U), m >= 2, all
+   produced by the same type-only converter T -> U from supplied named values
+   of type T among which every n_i occurs (k >= m values, any order): for
+   EVERY order tape and every behaviour, whenever the target executes its
+   i-th argument is a result of an execution of the converter whose argument
+   was exactly the supplied value named n_i; the converter never receives a
+   value named unlike every parameter; without failing functions the call
+   succeeds. *)
+Theorem C07_f3 : C07_f3_statement.
+Proof. exact C07_f3_proof. Qed.
+Print Assumptions C07_f3.
+
 (* non-vacuity: a concrete family instance meets f1_ok *)
 Local Open Scope Z_scope.
 Local Open Scope string_scope.
@@ -26,4 +40,10 @@ Example C07_nonvacuous :
               (mkFn 1 100 FStruct [mkF "a" 2 ""] FPos [mkF "" 3 ""] false false)
               (mkFn 2 101 FPos [mkF "" 1 ""] FPos [mkF "" 2 ""] true false)
               [("b", mkV 11 1); ("a", mkV 12 1); ("c", mkV 13 1)]) = true.
+Proof. vm_compute. reflexivity. Qed.
+Example C07_f3_nonvacuous :
+  f3_ok (mkF3 (mkU [] []) 1 2
+              (mkFn 1 100 FStruct [mkF "b" 2 ""; mkF "a" 2 ""] FPos [mkF "" 3 ""] false false)
+              (mkFn 2 101 FPos [mkF "" 1 ""] FPos [mkF "" 2 ""] true false)
+              [("a", mkV 11 1); ("c", mkV 12 1); ("b", mkV 13 1)]) = true.
 Proof. vm_compute. reflexivity. Qed.
